@@ -67,8 +67,9 @@ def run_native(group, feats, path, env, release, HARNESS, TARGET):
 
 def replay_harness(prop, group, feats, res, caps, logdir, env, cargo_kani_base, HARNESS, TARGET, REPLAYS):
     name = res["name"]
+    full = res.get("full_name", name)
     t0 = time.time()
-    cmd = cargo_kani_base(group, feats) + ["--harness", name, "-Z", "concrete-playback",
+    cmd = cargo_kani_base(group, feats) + ["--harness", full, "--exact", "-Z", "concrete-playback",
                                            "--concrete-playback=print"]
     log = os.path.join(logdir, name + ".playback.log")
     with open(log, "w") as out:
